@@ -20,6 +20,18 @@ TEXT = {
  "C17": ("Layer 1 (props/C17.v): C17_decoder_total proves for ALL chunk lists over ALL byte values, both arithmetic modes, that the frame decoder never panics, never buffers more than it received and delivers exactly the one-shot parse of the received bytes. Run against the real Decoder on exhaustive small hostile strings x all cuts, over-long / non-canonical / all-continuation prefixes at every split, random bytes, debug and release. (Adapter-loop and driver non-interference layers are added with the driver model.)",
          "Trusted: as C02; tungstenite's parser and the kernel are oracles.",
          "Coq proof (totality + chunking independence on arbitrary bytes) + differential correspondence", "DESIGN.md 4 (C17)"),
+ "C07": ("C07_queue_refines_spec proves that on EVERY finite single-threaded history of send / send_with_priority / send_with_timer / cancel_timer / try_receive / receive_timeout / receive calls (any durations, any clock readings) the model of events.rs (command channel, sorted BTreeMap, loop around select!) returns exactly what the 15-line reference — the property text — returns; C07_variants_agree shows the three receive forms make the same choice. The shape of events.rs the model assumes (select! arms, try_receive order, TimerId ordering) is re-read from the source on every run (C07_gen_obligation). Step correspondence: real EventReceiver on generated histories with the real clock readings and deadlines (read from the TimerId Debug output) fed to both the model and the reference.",
+         "Trusted: Coq kernel; crossbeam-channel and Instant as oracles; translator; harness. Single-threaded histories only (concurrency: C06/C16).",
+         "Coq refinement proof (simulation to a reference spec) + step correspondence with recorded clock", "DESIGN.md 4 (C07)"),
+ "C06": ("Over ALL label sequences of the events.rs model (any number of sender threads, send_with_timer split into its clock-read/fetch_add and its channel send, any interleaving with any receive variant): C06_fifo_conservation proves delivered ++ queued = sent for plain and for priority events (exactly once, nothing invented, FIFO); C06_timers_exactly_once proves unique timer identity also for equal deadlines, delivery at most once of what was scheduled, and that every scheduled timer is cancelled, delivered or still live. Real runs: 8 threads x 100k zero-duration timers (hundreds share an Instant), mixed-kind multi-thread histories with all three receive variants and dropped senders; logs judged by the extracted Coq predicates same_multiset_b / all_fifo_b and by the harness.",
+         "Trusted: Coq kernel; crossbeam-channel linearizable FIFO and fetch_add as oracles; harness.",
+         "Coq invariant proof over an interleaving LTS + log predicates extracted from Coq evaluated on real multi-thread runs", "DESIGN.md 4 (C06)"),
+ "C08": ("C08_delivery_sound: in every reachable state of the interleaving model, any receive that returns a timed event does so at a clock reading >= deadline = (clock at send_with_timer) + duration, of a timer that was scheduled, was not cancelled and was not delivered before; C08_cancel_exact: cancellation removes exactly the cancelled timer (others on the same instant stay live), for good. Timed scenarios on the real queue: never-early sweep (0, sub-ms, ms durations, 3 threads, senders dropped), cancel against a blocked receiver, validated against the model as label sequences with recorded instants.",
+         "Trusted: Coq kernel; at(t)/Instant oracles; harness timing margins (one-sided assertions only).",
+         "Coq invariant proof over an interleaving LTS + timed trace correspondence", "DESIGN.md 4 (C08)"),
+ "C16": ("C16_no_lost_wakeup: in every reachable state, if the receiver is blocked in its select! and anything is deliverable now (plain, priority, or a live expired timer, whether already in the map or still a Create in the command channel) then a non-timeout arm of that select! is ready now; C16_timeout_truthful: the timeout arm fires only after the timeout and only if nothing is deliverable. The wait set is re-read from the source each run (C16_gen_obligation). 57 timed scenarios (receiver blocked in receive()/receive_timeout(), another thread sends plain/priority/timer/cancel) are run on the real queue, with a watchdog, and replayed on the model.",
+         "Trusted: Coq kernel; crossbeam select! wakes within bounded time when an arm is ready (oracle; > 1 s is reported); translator for the select! arms.",
+         "Coq invariant proof (safety form of liveness) + per-run obligation on the regenerated select! arms + timed scenarios", "DESIGN.md 4 (C16)"),
 }
 
 def chk(pid):
